@@ -32,7 +32,7 @@ from tawazi.config import cfg
 from tawazi.consts import ARG_NAME_ACTIVATE, RVDAG, Identifier, P, Tag
 from tawazi.errors import TawaziTypeError, TawaziUsageError
 from tawazi.node import Alias, ArgExecNode, ExecNode, ReturnUXNsType, UsageExecNode, node
-from tawazi.node.node import LazyExecNode, make_active, make_axn_id
+from tawazi.node.node import LazyExecNode, ReturnExecNode, make_active, make_axn_id
 from tawazi.profile import Profile
 
 from .digraph import DiGraphEx
@@ -782,7 +782,10 @@ class DAG(BaseDAG[P, RVDAG]):
                             )
                         values["active"] = make_active(new_id, **kwargs)
 
-                node.exec_nodes[new_id] = type(exec_node)(**values)
+                # a constant of the sub-DAG's return value (ReturnExecNode) has its own constructor signature:
+                #  it is only a holder of a value already in the results, rebuild it as a plain ExecNode
+                xn_type = ExecNode if isinstance(exec_node, ReturnExecNode) else type(exec_node)
+                node.exec_nodes[new_id] = xn_type(**values)
 
             try:
                 if isinstance(self.return_uxns, UsageExecNode):
